@@ -469,8 +469,23 @@ class Compiler:
                 name = decl.id.name
                 if decl.init:
                     self._compile_expression(decl.init)
+                elif self._in_function:
+                    # 'var x;' does not assign: hoisting already created the variable
+                    self._add_local(name)
+                    continue
                 else:
+                    # 'var x;' at program level declares the global but keeps a value
+                    # it already has
+                    idx = self._add_name(name)
+                    self._emit(OpCode.TYPEOF_NAME, idx)
+                    self._emit(OpCode.LOAD_CONST, self._add_constant("undefined"))
+                    self._emit(OpCode.SEQ)
+                    skip = self._emit_jump(OpCode.JUMP_IF_FALSE)
                     self._emit(OpCode.LOAD_UNDEFINED)
+                    self._emit(OpCode.STORE_NAME, idx)
+                    self._emit(OpCode.POP)
+                    self._patch_jump(skip)
+                    continue
 
                 if self._in_function:
                     # Inside function: use local variable
